@@ -87,7 +87,9 @@ func ZZC13RoundTrip(typ, kind string) {
 	}
 
 	// second script: read the stored text back through a metadata-backed variable
-	r := Parse("vars {\n  " + typ + " $v = meta(@x, \"k\")\n}\nset_tx_meta(\"k\", $v)\nset_account_meta(@y, \"k\", $v)")
+	// ... and write it again over another value under the key it came from: the last
+	// write is the one a later script must find
+	r := Parse("vars {\n  " + typ + " $v = meta(@x, \"k\")\n}\nset_tx_meta(\"k\", $v)\nset_account_meta(@y, \"k\", $v)\nset_account_meta(@x, \"k\", \"something else\")\nset_account_meta(@x, \"k\", $v)")
 	res2, err2 := r.Run(context.Background(), VariablesMap{}, StaticStore{Meta: AccountsMetadata{"x": AccountMetadata{"k": stored}}})
 	zzvrt.Assert(err2 == nil, "C13:stored-text-reads-back")
 	if err2 != nil {
@@ -101,6 +103,7 @@ func ZZC13RoundTrip(typ, kind string) {
 	}
 	zzvrt.Assert(zzvrt.StrEq(v2.String(), v1.String()), "C13:read-back-value-identical")
 	zzvrt.Assert(zzvrt.StrEq(res2.AccountsMetadata["y"]["k"], stored), "C13:read-back-value-identical")
+	zzvrt.Assert(zzvrt.StrEq(res2.AccountsMetadata["x"]["k"], stored), "C13:value-written-back-over-another-one-is-what-remains")
 	// and as a plain variable of the same type
 	p := Parse("vars {\n  " + typ + " $v\n}\nset_tx_meta(\"k\", $v)")
 	res3, err3 := p.Run(context.Background(), VariablesMap{"v": stored}, StaticStore{})
